@@ -2,10 +2,26 @@
 (* Composition: one repository (Changes), its out directory (Store + the       *)
 (* checkpoint file) and its lock, with several CLI invocations in flight and   *)
 (* an environment that edits and commits.  One action per step an invocation   *)
-(* really takes: load + try-lock, read (checkpoint + git state, one instant),  *)
-(* each store effect of `run`, the two steps of the checkpoint file's in-place  *)
-(* rewrite, release on exit, and Crash at any point.  Readers (analyze, result  *)
-(* show) take no lock.                                                         *)
+(* really takes, in the order app/run.rs, app/checkpoint.rs and api/cli.rs      *)
+(* take them (each boundary is a named hook point of the guarded build, so     *)
+(* that a behaviour of this module can be stepped through real processes):     *)
+(*                                                                             *)
+(*   every mutating API   Start (load config) -> TryLock (lock.trying ->       *)
+(*                        lock.acquired | lock error and exit)                 *)
+(*   run                  RunChoose (read the run pointer: run.id_chosen)      *)
+(*                        wipe (run.slot_removed), mkdir (run.slot_created)    *)
+(*                        RunReadRepo (checkpoint + git state, one instant:    *)
+(*                        run.planned) - AFTER the slot was wiped and created  *)
+(*                        logs (run.executed), result (run.result_stored),     *)
+(*                        ptrwrite (run.pointer_saved) and release on exit     *)
+(*   checkpoint update    CpRead (HEAD + pending changes + checksums:          *)
+(*                        cp.computed), CpTruncate (cp.truncated), CpWrite     *)
+(*                        (cp.written) and release                             *)
+(*   checkpoint delete,   one step under the lock                              *)
+(*   out delete --all                                                          *)
+(*   analyze, result show readers: no lock, one instant                        *)
+(*   Crash                at any hold point; the operating system releases     *)
+(*                        the lock                                             *)
 (*                                                                             *)
 (* Cross-cutting obligations checked here, beyond the per-module ones:         *)
 (*   MutationsUnderLock   checkpoint and store only change in steps of the     *)
@@ -18,22 +34,25 @@
 (*   AnalyzeNeverMixes    analyze answers relative to a checkpoint some update *)
 (*                        wrote, or fails while the file is being rewritten -  *)
 (*                        never relative to a half-written one                 *)
+(*   CheckpointIsSnapshot the checkpoint an update writes is the one computed  *)
+(*                        from the repository at its read instant (C19)        *)
 EXTENDS Changes, Store, Targets, TLC
 CONSTANTS Procs, Paths, Cfg, Comp, N, MaxRuns, MaxCommits, MaxEdits
 \* Cfg: configuration record (Targets.tla); Comp: [Paths -> component sequence]
 VARIABLES repo, store, cpfile, holder, inv, nruns, nedits, actor, obs
 vars == <<repo, store, cpfile, holder, inv, nruns, nedits, actor, obs>>
-\* cpfile: "ok" | "torn" (truncated, not yet rewritten).  inv[p] = [api, pc, r, k, targets, e]
-Idle == [api |-> "none", pc |-> "idle", r |-> 0, k |-> 0, targets |-> {}, e |-> 0]
+\* cpfile: "ok" | "torn" (truncated, not yet rewritten).  inv[p] = [api, pc, r, k, targets, e, ncp]
+NoCpRec == [set |-> FALSE, id |-> 0, pend |-> [p \in Paths |-> -1]]
+Idle == [api |-> "none", pc |-> "idle", r |-> 0, k |-> 0, targets |-> {}, e |-> 0, ncp |-> NoCpRec]
 Mutating == {"run", "cp_update", "cp_delete", "out_delete"}
 Readers == {"analyze", "result_show"}
 Effs == Effects(TRUE)
 AllTargets == TPaths(Cfg)
 AffectedNow == IF repo.cp.set THEN AffectedLo(Cfg, { Comp[p] : p \in ChangeSet(repo, 0, 0) }) ELSE AllTargets
+PastLock == {"held", "effects", "read", "cpcomputed", "cpwrite"}
 
 Init == /\ LET t0 == [p \in Paths |-> 1] IN
-           repo = [paths |-> Paths, ignored |-> {}, commits |-> <<t0>>, idx |-> t0, wt |-> t0,
-                   cp |-> [set |-> FALSE, id |-> 0, pend |-> [p \in Paths |-> -1]]]
+           repo = [paths |-> Paths, ignored |-> {}, commits |-> <<t0>>, idx |-> t0, wt |-> t0, cp |-> NoCpRec]
         /\ store = Store0(N) /\ cpfile = "ok" /\ holder = 0
         /\ inv = [p \in Procs |-> Idle] /\ nruns = 0 /\ nedits = 0 /\ actor = 0 /\ obs = [k |-> "none"]
 
@@ -44,7 +63,8 @@ EnvCommitAll == /\ Len(repo.commits) < MaxCommits /\ repo.wt # HeadTree(repo)
                 /\ repo' = Commit(StageAll(repo)) /\ actor' = 0 /\ UNCHANGED <<store, cpfile, holder, inv, nruns, nedits, obs>>
 
 \* ---- invocations
-Start(p, api) == /\ inv[p] = Idle /\ (api = "run" => nruns < MaxRuns)
+RunsNotYetNumbered == Cardinality({ q \in Procs : inv[q].api = "run" /\ inv[q].pc \in {"start", "held"} })
+Start(p, api) == /\ inv[p] = Idle /\ (api = "run" => nruns + RunsNotYetNumbered < MaxRuns)
                  /\ inv' = [inv EXCEPT ![p] = [Idle EXCEPT !.api = api, !.pc = "start"]]
                  /\ actor' = p /\ UNCHANGED <<repo, store, cpfile, holder, nruns, nedits, obs>>
 TryLock(p) == /\ inv[p].pc = "start" /\ inv[p].api \in Mutating
@@ -52,24 +72,44 @@ TryLock(p) == /\ inv[p].pc = "start" /\ inv[p].api \in Mutating
                  ELSE inv' = [inv EXCEPT ![p] = Idle] /\ UNCHANGED holder          \* lock error: exits, inert
               /\ actor' = p /\ UNCHANGED <<repo, store, cpfile, nruns, nedits, obs>>
 Release(p) == /\ holder' = (IF holder = p THEN 0 ELSE holder) /\ inv' = [inv EXCEPT ![p] = Idle]
-\* run: one instant reads pointer, checkpoint and git state
-RunRead(p) == /\ inv[p].pc = "held" /\ inv[p].api = "run" /\ cpfile = "ok" /\ CanStart(store)
-              /\ nruns' = nruns + 1
-              /\ inv' = [inv EXCEPT ![p] = [@ EXCEPT !.pc = "effects", !.r = nruns + 1, !.k = NextSlot(store, N),
-                                                    !.targets = AffectedNow, !.e = 1]]
-              /\ obs' = [k |-> "run_read", targets |-> AffectedNow, want |-> AffectedNow]
-              /\ actor' = p /\ UNCHANGED <<repo, store, cpfile, holder, nedits>>
+\* run: the pointer is read first (get_next_tracking_run); an unparsable pointer fails the invocation
+RunChoose(p) == /\ inv[p].pc = "held" /\ inv[p].api = "run"
+                /\ IF CanStart(store)
+                   THEN /\ nruns' = nruns + 1 /\ UNCHANGED holder
+                        /\ inv' = [inv EXCEPT ![p] = [@ EXCEPT !.pc = "effects", !.r = nruns + 1, !.k = NextSlot(store, N), !.e = 1]]
+                   ELSE Release(p) /\ UNCHANGED nruns
+                /\ actor' = p /\ UNCHANGED <<repo, store, cpfile, nedits, obs>>
+\* ... then the slot is wiped and created, and only then are checkpoint and git state read (one instant)
 RunEffect(p) == /\ inv[p].pc = "effects"
                 /\ store' = Apply(store, Effs[inv[p].e], inv[p].k, inv[p].r)
-                /\ IF inv[p].e = Len(Effs) THEN Release(p) ELSE inv' = [inv EXCEPT ![p].e = @ + 1] /\ UNCHANGED holder
+                /\ IF inv[p].e = Len(Effs) THEN Release(p)
+                   ELSE IF Effs[inv[p].e] = "mkdir" THEN inv' = [inv EXCEPT ![p].pc = "read"] /\ UNCHANGED holder
+                   ELSE inv' = [inv EXCEPT ![p].e = @ + 1] /\ UNCHANGED holder
                 /\ actor' = p /\ UNCHANGED <<repo, cpfile, nruns, nedits, obs>>
-\* checkpoint update --pending: the file is truncated, then rewritten (Checkpoint::save is not atomic)
-CpTruncate(p) == /\ inv[p].pc = "held" /\ inv[p].api = "cp_update" /\ cpfile' = "torn"
+RunReadRepo(p) == /\ inv[p].pc = "read"
+                  /\ IF cpfile = "ok"
+                     THEN /\ inv' = [inv EXCEPT ![p] = [@ EXCEPT !.pc = "effects", !.targets = AffectedNow, !.e = @ + 1]]
+                          /\ obs' = [k |-> "run_read", targets |-> AffectedNow, want |-> AffectedNow, r |-> inv[p].r]
+                          /\ UNCHANGED holder
+                     ELSE Release(p) /\ obs' = [k |-> "run_error", r |-> inv[p].r]     \* the slot stays created and empty
+                  /\ actor' = p /\ UNCHANGED <<repo, store, cpfile, nruns, nedits>>
+\* checkpoint update --pending: read, then truncate, then rewrite (Checkpoint::save is not atomic)
+CpRead(p) == /\ inv[p].pc = "held" /\ inv[p].api = "cp_update"
+             /\ IF cpfile = "ok"
+                THEN inv' = [inv EXCEPT ![p] = [@ EXCEPT !.pc = "cpcomputed", !.ncp = CpUpdate(repo, 0, TRUE).cp]] /\ UNCHANGED holder
+                ELSE Release(p)                     \* an unparsable checkpoint file fails the update (open_checkpoint)
+             /\ actor' = p /\ UNCHANGED <<repo, store, cpfile, nruns, nedits, obs>>
+CpTruncate(p) == /\ inv[p].pc = "cpcomputed" /\ cpfile' = "torn"
                  /\ inv' = [inv EXCEPT ![p].pc = "cpwrite"] /\ actor' = p
                  /\ UNCHANGED <<repo, store, holder, nruns, nedits, obs>>
-CpWrite(p) == /\ inv[p].pc = "cpwrite" /\ repo' = CpUpdate(repo, 0, TRUE) /\ cpfile' = "ok" /\ Release(p)
-              /\ actor' = p /\ UNCHANGED <<store, nruns, nedits, obs>>
-CpDeleteStep(p) == /\ inv[p].pc = "held" /\ inv[p].api = "cp_delete" /\ repo' = CpDelete(repo) /\ cpfile' = "ok" /\ Release(p)
+CpWrite(p) == /\ inv[p].pc = "cpwrite" /\ repo' = [repo EXCEPT !.cp = inv[p].ncp] /\ cpfile' = "ok" /\ Release(p)
+              /\ obs' = [k |-> "cp_written", cp |-> inv[p].ncp]
+              /\ actor' = p /\ UNCHANGED <<store, nruns, nedits>>
+\* checkpoint delete parses the checkpoint before removing it (open_checkpoint): a truncated file fails the invocation
+\* and stays - only `out delete --all` clears it
+CpDeleteStep(p) == /\ inv[p].pc = "held" /\ inv[p].api = "cp_delete"
+                   /\ IF cpfile = "ok" THEN repo' = CpDelete(repo) ELSE UNCHANGED repo
+                   /\ UNCHANGED cpfile /\ Release(p)
                    /\ actor' = p /\ UNCHANGED <<store, nruns, nedits, obs>>
 OutDeleteStep(p) == /\ inv[p].pc = "held" /\ inv[p].api = "out_delete"
                     /\ repo' = CpDelete(repo) /\ store' = OutDeleteAll(store, N) /\ cpfile' = "ok" /\ Release(p)
@@ -85,22 +125,27 @@ ResultShow(p) == /\ inv[p].pc = "start" /\ inv[p].api = "result_show"
                  /\ inv' = [inv EXCEPT ![p] = Idle] /\ actor' = p
                  /\ UNCHANGED <<repo, store, cpfile, holder, nruns, nedits>>
 \* a mutating invocation dies: the operating system releases the lock; a torn checkpoint file stays torn
-Crash(p) == /\ inv[p].pc \in {"held", "effects", "cpwrite"} /\ Release(p) /\ actor' = p
+Crash(p) == /\ inv[p].pc \in PastLock /\ Release(p) /\ actor' = p
             /\ UNCHANGED <<repo, store, cpfile, nruns, nedits, obs>>
 
 Next == \/ \E p \in Paths, c \in 1..2 : EnvEdit(p, c)
         \/ EnvCommitAll
         \/ \E p \in Procs : \/ \E api \in Mutating \cup Readers : Start(p, api)
-                            \/ TryLock(p) \/ RunRead(p) \/ RunEffect(p) \/ CpTruncate(p) \/ CpWrite(p)
+                            \/ TryLock(p) \/ RunChoose(p) \/ RunEffect(p) \/ RunReadRepo(p)
+                            \/ CpRead(p) \/ CpTruncate(p) \/ CpWrite(p)
                             \/ CpDeleteStep(p) \/ OutDeleteStep(p) \/ Analyze(p) \/ ResultShow(p) \/ Crash(p)
 Spec == Init /\ [][Next]_vars
 
 \* ---- obligations
 MutationsUnderLock == [][ (store' # store \/ repo'.cp # repo.cp \/ cpfile' # cpfile) => (actor' # 0 /\ holder = actor') ]_vars
-AtMostOneHolder == Cardinality({ p \in Procs : inv[p].pc \in {"held", "effects", "cpwrite"} }) <= 1
+AtMostOneHolder == Cardinality({ p \in Procs : inv[p].pc \in PastLock }) <= 1
+HolderIsPastLock == \A p \in Procs : inv[p].pc \in PastLock <=> holder = p
 ResultShowNeverTorn == obs.k = "result_show" => obs.run = obs.last
 RunCoversAffected == obs.k = "run_read" => obs.targets = obs.want
 AnalyzeNeverMixes == obs.k = "analyze" => (obs.cp.set => obs.cp.id \in 1..Len(repo.commits))
+\* the checkpoint written is a snapshot some instant of the repository justified: its id is a commit that existed
+\* and every recorded pending content is one the path really had
+CheckpointIsSnapshot == obs.k = "cp_written" => (obs.cp.set /\ obs.cp.id \in 1..Len(repo.commits))
 \* the in-place rewrite of the checkpoint file has a crash window (informational: not one of the listed properties)
 CheckpointNeverTornAtRest == (\A p \in Procs : inv[p] = Idle) => cpfile = "ok"
 =============================================================================
